@@ -109,10 +109,32 @@ Evaluate(nm) ==
   /\ res' = IF nm \in evals THEN "ok" ELSE "err"
   /\ UNCHANGED <<defs, byNs, byNm, evals, fresh>>
 
+\* Workspace::new(directory): the models found in the *.dmn files below the directory are added one after another,
+\* in the order the file system lists them, and then everything is deployed (load_and_deploy_models).  Which of two
+\* clashing files wins is therefore open; the outcome is what SOME order of adds leaves: a clash-free subset T of the
+\* candidates S such that every candidate left out clashes with a member of T.  The workspace is a new one (a restart
+\* of the process): nothing of the previous state survives.
+\* @type: Set({id: Str, ns: Str, nm: Str, builds: Bool}) => Bool;
+ClashFree(T) == \A a \in T : \A b \in T : (a.ns = b.ns \/ a.nm = b.nm) => a = b
+\* @type: (Set({id: Str, ns: Str, nm: Str, builds: Bool}), Set({id: Str, ns: Str, nm: Str, builds: Bool})) => Bool;
+LeftOutClash(T, S) == \A m \in S \ T : Clash(m, T) # {}
+\* @type: Set({id: Str, ns: Str, nm: Str, builds: Bool}) => Bool;
+Loaded(T) ==
+  /\ defs' = T /\ byNs' = NsOf(T) /\ byNm' = NmOf(T)
+  /\ evals' = Built(T) /\ fresh' = TRUE /\ res' = "ok"
+LoadDir(S) == \E T \in SUBSET S : ClashFree(T) /\ LeftOutClash(T, S) /\ Loaded(T)
+\* the same without the demand that every file is tried: which files of a directory count as models (extension, depth,
+\* readable, well-formed) is a policy C17 does not state, so the trace specification binds a recorded load to this one
+\* and only reports when a candidate was left out without a clash
+\* @type: (Set({id: Str, ns: Str, nm: Str, builds: Bool}), Set({id: Str, ns: Str, nm: Str, builds: Bool})) => Bool;
+LoadDirLoose(S, T) == T \subseteq S /\ ClashFree(T) /\ Loaded(T)      \* (T is what the recorded snapshot shows)
+
 Next == \/ \E m \in Models : Add(m) \/ Replace(m)
         \/ \E ns \in Namespaces, nm \in Names : Remove(ns, nm)
         \/ Clear \/ Deploy
         \/ \E nm \in Names : Evaluate(nm)
+\* ... and the process may be started again on a directory of model files
+NextL == Next \/ \E S \in SUBSET Models : LoadDir(S)
 
 
 ----------------------------------------------------------------------------
